@@ -4,8 +4,8 @@
    PARTIAL: the theorems are about the writer-level model (batches of write / recompute messages,
    marks written at the end of a batch, events built from the rows a recompute found dirty).
    How tokio schedules the readers, the authorisation actor and the writer is not modelled: the
-   order in which the harness sees the writes and the event of a stream is observed, and the
-   room-modified part of the statement is only observed on the real code (CRoom cases).
+   order in which the harness sees the writes and the event of a stream is observed, and for
+   room-modified events the commit order of concurrent mutations is read off the events (CRoomBurst).
    C18_full (proofs/C18P.v) is the statement at full strength; no refutation of it is left that the real
    code reproduces (all known classes were repaired); what is proved is C18_data_holds_partial. *)
 From DV Require Import Run_C09 C09P Run_C18 C18P.
@@ -76,6 +76,15 @@ Theorem C18_data_holds_partial : forall t0 prog, prog_env (init t0) prog ->
   spec_C18 (CSeq t0 prog) (run_C18 (CSeq t0 prog)) = true.
 Proof. exact seq_holds_env. Qed.
 Print Assumptions C18_data_holds_partial.
+
+(* (6) room-modified events under concurrency: the events of the model — the fold of the accepted
+   mutations of a room in commit order, as the second validation after the write produces them — are,
+   for EVERY commit order, one per accepted mutation, only grow, and the last carries every accepted
+   entry (the oracle the harness applies to the events of the real code, room-burst scenarios) *)
+Theorem C18_room_events_hold_partial : forall base accepted order, Permutation.Permutation order accepted ->
+  room_events_ok base accepted (room_events base order) = true.
+Proof. exact room_events_hold. Qed.
+Print Assumptions C18_room_events_hold_partial.
 
 Example C18_nonvacuous :
   known_C18 w_seq = [] /\ spec_C18 w_seq (run_C18 w_seq) = true /\
